@@ -92,18 +92,23 @@ Definition is_clifford_given_angle (a : pyval) : bool :=
    the numbering is chosen so that the intended branch at theta = k*pi/2 is k mod 4 *)
 Definition feq0 (x : float) : bool := PrimFloat.eqb x zero.
 
-Definition rot_branch (theta : float) : nat :=
-  if feq0 (pymodT theta f_twopi) then 0%nat
-  else if feq0 (pymodT (PrimFloat.sub (PrimFloat.div theta f_pi) 1%float) 2%float) then 2%nat
-  else if feq0 (pymodT (PrimFloat.sub (PrimFloat.div theta f_halfpi) 1%float) 4%float) then 1%nat
+(* chain position in the source order of RX/RY/RZ (0: first test ... 3: else); the float
+   expressions are written exactly as the translator emits them, so that the per-run bridge
+   `gen_RX_pos theta = rot_pos theta` is proved for every float by unfolding *)
+Definition rot_pos (theta : float) : nat :=
+  if feq0 (pymodT theta (PrimFloat.mul 2%float f_pi)) then 0%nat
+  else if feq0 (pymodT (PrimFloat.sub (PrimFloat.div theta f_pi) 1%float) 2%float) then 1%nat
+  else if feq0 (pymodT (PrimFloat.sub (PrimFloat.div theta (PrimFloat.div f_pi 2%float)) 1%float) 4%float) then 2%nat
   else 3%nat.
+Definition rot_branch (theta : float) : nat :=
+  match rot_pos theta with 0 => 0 | 1 => 2 | 2 => 1 | _ => 3 end%nat.
 
 (* CRX/CRY/CRZ: Some j: the branch for theta = j*pi (mod 4*pi);  None: no branch applies, the
    Python function falls off its end and returns None (the caller ignores the return value) *)
 Definition crot_branch (theta : float) : option nat :=
-  if feq0 (pymodT theta f_fourpi) then Some 0%nat
+  if feq0 (pymodT theta (PrimFloat.mul 4%float f_pi)) then Some 0%nat
   else if feq0 (pymodT (PrimFloat.sub (PrimFloat.div theta f_pi) 1%float) 4%float) then Some 1%nat
-  else if feq0 (pymodT (PrimFloat.sub (PrimFloat.div theta f_twopi) 1%float) 2%float) then Some 2%nat
+  else if feq0 (pymodT (PrimFloat.sub (PrimFloat.div theta (PrimFloat.mul 2%float f_pi)) 1%float) 2%float) then Some 2%nat
   else if feq0 (pymodT (PrimFloat.sub (PrimFloat.div theta f_pi) 3%float) 4%float) then Some 3%nat
   else None.
 
